@@ -1006,7 +1006,9 @@ void SLUFactor<R>::assign(const SLUFactor<R>& old)
    memcpy(this->l.start, old.l.start, (unsigned int)this->l.startSize * sizeof(*this->l.start));
    memcpy(this->l.row,   old.l.row, (unsigned int)this->l.startSize * sizeof(*this->l.row));
 
-   if(old.l.ridx != nullptr)
+   // the row-wise copy of L is rebuilt only by a successful factorization; after a failed one the arrays of old still have
+   // the size of the previous factorization and must not be copied with the current size
+   if(old.l.ridx != nullptr && old.stat == SLinSolver<R>::OK)
    {
       assert(old.l.ridx  != nullptr);
       assert(old.l.rbeg  != nullptr);
@@ -1029,11 +1031,6 @@ void SLUFactor<R>::assign(const SLUFactor<R>& old)
    }
    else
    {
-      assert(old.l.ridx  == nullptr);
-      assert(old.l.rbeg  == nullptr);
-      assert(old.l.rorig == nullptr);
-      assert(old.l.rperm == nullptr);
-
       this->l.rval.clear();
       this->l.ridx  = nullptr;
       this->l.rbeg  = nullptr;
